@@ -1,6 +1,9 @@
 package sim
 
-import "strconv"
+import (
+	"strconv"
+	"strings"
+)
 
 // observation appends, after barrier b, a client that reads every key of the
 // universe with one read command per type, so that the final state is part of
@@ -379,6 +382,37 @@ func genConcTxPlan(prop string, seed uint64, thorough bool) *Plan {
 		p.Clients = append(p.Clients, Client{Items: items, Depth: 1 + g.r.IntN(2)})
 	}
 	p.Clients[0].Items = append(p.Clients[0].Items, Item{Op: "barrier", N: 2})
+	if g.chance(4) {
+		// one connection is killed by another at some point of its program - also in
+		// the middle of its EXEC, whose reply is then lost but whose effect must
+		// still be all of the queue or nothing
+		killer, victim := 1+g.r.IntN(nc), 1+g.r.IntN(nc)
+		if killer != victim {
+			its := p.Clients[killer].Items
+			at := 1 + g.r.IntN(len(its)-1)
+			// (not inside the killer's own MULTI, where the command would only be queued)
+			depth := 0
+			for i := 0; i < at; i++ {
+				switch strings.ToUpper(string(firstArg(its[i]))) {
+				case "MULTI":
+					depth = 1
+				case "EXEC", "DISCARD":
+					depth = 0
+				}
+			}
+			if depth == 0 {
+				kill := cmdItem("CLIENT", "KILL", "ID", "$id:"+strconv.Itoa(victim))
+				p.Clients[killer].Items = append(its[:at:at], append([]Item{kill}, its[at:]...)...)
+			}
+		}
+	}
 	p.Clients = append(p.Clients, observation(g.keys, 2, 0, 1))
 	return p
+}
+
+func firstArg(it Item) B {
+	if len(it.Args) == 0 {
+		return ""
+	}
+	return it.Args[0]
 }
